@@ -34,13 +34,12 @@ def main():
     if not patch.exists() or not demo.exists():
         print("missing SEED/patch.diff or SEED/demo.py")
         return 2
-    # regenerate the patch from the working tree when the agent's file is stale/empty
-    rc, diff = sh(["git", "-C", str(wt), "diff", "--", "hdc"])
-    if diff.strip() and diff.strip() != patch.read_text().strip():
-        print("note: SEED/patch.diff differs from the working tree diff; using the working tree diff")
+    # SEED/patch.diff is the source of truth (agents' worktrees share one git stash and may have been disturbed);
+    # fall back to the working-tree diff only when the file is empty
+    patch_text = patch.read_text()
+    if not patch_text.strip():
+        rc, diff = sh(["git", "-C", str(wt), "diff", "--", "hdc"])
         patch_text = diff
-    else:
-        patch_text = patch.read_text()
     meta = {}
     if (seed / "meta.json").exists():
         try:
